@@ -143,6 +143,15 @@ impl NodeProcessor for RemoveUnusedVariableProcessor {
                                             .map(|(identifier, _)| identifier.clone()),
                                     );
                                 }
+                            } else {
+                                // a declaration without any value: keep the variables that are used
+                                remaining_unassigned_variables.extend(
+                                    assign
+                                        .iter_variables()
+                                        .zip(usages.iter())
+                                        .filter(|(_, used)| **used)
+                                        .map(|(identifier, _)| identifier.clone()),
+                                );
                             }
 
                             let mut values = Vec::new();
